@@ -192,6 +192,7 @@ func main() {
 	known := flag.String("known", "", "comma separated signatures of open known findings")
 	traceSeed := flag.Int64("trace", -1, "print the event log of run index N (determinism self-test)")
 	minBudget := flag.Float64("minbudget", 20, "minimisation wall-clock budget in seconds")
+	regress := flag.String("regress", "", "directory of regression plans (run first by worker 0)")
 	dumpPlan := flag.Int("dumpplan", -1, "write the plan of run index N to -out and exit")
 	outPath := flag.String("out", "", "output path for -dumpplan")
 	flag.Parse()
@@ -238,14 +239,43 @@ func main() {
 		}
 	}
 	reported := map[string]bool{}
+	regressFailed := false
 
 	agg := &Agg{T: "done", Worker: *worker, Faults: map[string]int{}, Unjudged: map[string]int{}, Probes: map[string]int{}, Kinds: map[string]int{}, Strats: map[string]int{}}
 	nt := map[uint64]bool{}
 	states := map[uint64]bool{}
 	scheds := map[uint64]bool{}
 	start := time.Now()
+	// regression corpus: minimised replay files of findings that were repaired ("fixed" entries of
+	// known_findings.json suppress nothing - if one returns it is reported again)
+	if *worker == 0 && *regress != "" {
+		files, _ := filepath.Glob(filepath.Join(*regress, *prop+"-*.json"))
+		sort.Strings(files)
+		for _, f := range files {
+			b, err := os.ReadFile(f)
+			var rp Plan
+			if err != nil || json.Unmarshal(b, &rp) != nil || rp.Property != *prop {
+				fmt.Fprintln(os.Stderr, "HARNESS BUG: unreadable regression plan", f)
+				os.Exit(4)
+			}
+			rp.Violation = nil
+			st := &RunStats{}
+			v := w.Exec(&rp, st)
+			agg.Runs++
+			agg.Steps += st.Steps
+			agg.Ops += int64(st.Ops)
+			agg.Probes["regression-plan"]++
+			if v != nil && !knownSet[v.Signature()] {
+				rp.Note = "regression corpus plan " + filepath.Base(f)
+				path := writeReplay(*replayDir, &rp, v)
+				lg.emit(map[string]any{"t": "violation", "signature": v.Signature(), "violation": v, "replay": path, "run": -1, "seed": rp.Seed})
+				regressFailed = true
+				break
+			}
+		}
+	}
 	deadline := start.Add(time.Duration(*budget * float64(time.Second)))
-	for idx := *worker; ; idx += *nworkers {
+	for idx := *worker; !regressFailed; idx += *nworkers {
 		if *maxRuns > 0 && agg.Runs >= *maxRuns {
 			break
 		}
